@@ -188,8 +188,13 @@ pub fn rank_distance(b: &Built<u32>, stack: &Stack, input: &[usize], i: usize, u
 
 pub struct SearchResult {
     pub cstar: u64,
-    /// minimum-cost successful sequences with trailing shifts stripped, ranked maximal
+    /// minimum-cost successful sequences with trailing shifts stripped, ranked maximal when the
+    /// continuation is probed for at most 250 lexemes from the error (what the implementation
+    /// documents): the largest set that may be reported
     pub expect: BTreeSet<Vec<Mv>>,
+    /// ... ranked maximal when the continuation is followed to the end of the input: these
+    /// must all be reported
+    pub expect_uncapped: BTreeSet<Vec<Mv>>,
     /// all minimum-cost successful sequences (stripped), any rank
     pub all_min: BTreeSet<Vec<Mv>>,
     pub nodes: usize,
@@ -281,25 +286,26 @@ pub fn repair_search(
         }
         if !successes.is_empty() {
             let mut best = 0usize;
-            let mut ranked: Vec<(usize, Vec<Mv>)> = vec![];
+            let mut best_u = 0usize;
+            let mut ranked: Vec<(usize, usize, Vec<Mv>)> = vec![];
             for (st, i, seq) in successes {
                 let d = rank_distance(b, &st, input, i, e + 250);
+                let du = rank_distance(b, &st, input, i, usize::MAX);
                 best = best.max(d);
+                best_u = best_u.max(du);
                 let mut s = seq;
                 while matches!(s.last(), Some(Mv::Shf)) {
                     s.pop();
                 }
-                ranked.push((d, s));
+                ranked.push((d, du, s));
             }
-            let all_min: BTreeSet<Vec<Mv>> = ranked.iter().map(|(_, s)| s.clone()).collect();
-            let expect: BTreeSet<Vec<Mv>> = ranked
-                .into_iter()
-                .filter(|(d, _)| *d == best)
-                .map(|(_, s)| s)
-                .collect();
+            let all_min: BTreeSet<Vec<Mv>> = ranked.iter().map(|(_, _, s)| s.clone()).collect();
+            let expect: BTreeSet<Vec<Mv>> = ranked.iter().filter(|(d, _, _)| *d == best).map(|(_, _, s)| s.clone()).collect();
+            let expect_uncapped: BTreeSet<Vec<Mv>> = ranked.iter().filter(|(_, du, _)| *du == best_u).map(|(_, _, s)| s.clone()).collect();
             return Some(SearchResult {
                 cstar: c as u64,
                 expect,
+                expect_uncapped,
                 all_min,
                 nodes,
             });
